@@ -259,19 +259,75 @@ fn call(phi: f64, ev: [u8; 64], stake: u64, total: u64) -> u8 {
     }
 }
 
+/// not evaluated (row cut short by the slow-decision guard or by the wall budget): never judged
+const SKIPPED: u8 = 3;
+
+/// Protection against pathologically slow decisions (a change that makes the Taylor loop run its
+/// 1000 iterations on exploding rationals must end in a verdict, not in an endless sweep).
+struct Guard {
+    start: std::time::Instant,
+    /// wall budget for the whole run, seconds (VERIF_C08_BUDGET_S)
+    budget_s: f64,
+    /// a single decision using more CPU time than this is "slow" (VERIF_C08_SLOW_CALL_S); normal
+    /// decisions take micro- to milliseconds
+    slow_call_s: f64,
+    /// a row is cut short after this many slow decisions
+    handful: usize,
+}
+
+impl Guard {
+    fn new(ctx: &Ctx) -> Guard {
+        let env = |k: &str| std::env::var(k).ok().and_then(|v| v.trim().parse::<f64>().ok());
+        Guard {
+            start: ctx.start,
+            budget_s: env("VERIF_C08_BUDGET_S").unwrap_or(ctx.tier.pick(150.0, 1500.0)),
+            slow_call_s: env("VERIF_C08_SLOW_CALL_S").unwrap_or(0.5),
+            handful: 3,
+        }
+    }
+    fn over_budget(&self) -> bool {
+        self.start.elapsed().as_secs_f64() > self.budget_s
+    }
+}
+
+/// CPU time of the calling thread (independent of how loaded the machine is)
+fn thread_cpu_s() -> f64 {
+    let mut ts = libc::timespec { tv_sec: 0, tv_nsec: 0 };
+    // SAFETY: plain syscall writing into a local timespec
+    unsafe { libc::clock_gettime(libc::CLOCK_THREAD_CPUTIME_ID, &mut ts) };
+    ts.tv_sec as f64 + ts.tv_nsec as f64 * 1e-9
+}
+
+#[derive(Clone, Copy, PartialEq, Debug)]
+enum Cut {
+    No,
+    Slow,
+    Budget,
+}
+
 /// decisions of the real code for one stake over all draws of the cell; every 4th draw is decided
-/// twice (determinism)
-fn run_row(cell: &Cell, r: usize) -> Vec<u8> {
+/// twice (determinism). Draws after a cut are SKIPPED.
+fn run_row(cell: &Cell, r: usize, g: &Guard) -> (Vec<u8>, Cut) {
     let row = &cell.rows[r];
-    cell.draws
-        .iter()
-        .enumerate()
-        .map(|(i, d)| {
-            let ev = lot::ev_from_biguint(d);
-            let a = call(cell.phi, ev, row.stake, cell.total);
-            if i % 4 == 0 && call(cell.phi, ev, row.stake, cell.total) != a { a | NONDET } else { a }
-        })
-        .collect()
+    let mut out = vec![SKIPPED; cell.draws.len()];
+    let mut slow = 0usize;
+    for (i, d) in cell.draws.iter().enumerate() {
+        if g.over_budget() {
+            return (out, Cut::Budget);
+        }
+        let ev = lot::ev_from_biguint(d);
+        let t0 = thread_cpu_s();
+        let a = call(cell.phi, ev, row.stake, cell.total);
+        let was_slow = thread_cpu_s() - t0 > g.slow_call_s;
+        out[i] = if !was_slow && i % 4 == 0 && call(cell.phi, ev, row.stake, cell.total) != a { a | NONDET } else { a };
+        if was_slow {
+            slow += 1;
+            if slow >= g.handful && i + 1 < cell.draws.len() {
+                return (out, Cut::Slow);
+            }
+        }
+    }
+    (out, Cut::No)
 }
 
 fn is_won(d: u8) -> bool {
@@ -352,10 +408,14 @@ fn judge_cell(cell: &Cell, dec: &[Vec<u8>]) -> (Report, Stats) {
         let mut sample_l: Option<usize> = None;
         let mut st = RowStat { phi, x_lo: row.x_lo, decisive: 0, wrong_lost: 0, wrong_won: 0 };
         let (mut n_close, mut n_won, mut n_lost, mut n_near) = (0u64, 0u64, 0u64, 0u64);
-        rep.add_extra("decided_twice", nd.div_ceil(4) as u64);
+        rep.add_extra("decided_twice", (0..nd).step_by(4).filter(|d| dec[r][*d] != SKIPPED).count() as u64);
         for d in 0..nd {
-            rep.eval();
             let raw = dec[r][d];
+            if raw == SKIPPED {
+                rep.add_extra("decisions_skipped_never_judged", 1);
+                continue;
+            }
+            rep.eval();
             if raw & NONDET != 0 {
                 rep.violation(
                     K_NONDET,
@@ -499,6 +559,9 @@ fn judge_cell(cell: &Cell, dec: &[Vec<u8>]) -> (Report, Stats) {
         let mut first_lost: Option<usize> = None; // any
         let mut first_lost_decisive: Option<usize> = None; // not inside the band
         for d in 0..nd {
+            if dec[r][d] == SKIPPED {
+                continue;
+            }
             if !is_won(dec[r][d]) {
                 first_lost.get_or_insert(d);
                 if !too_close(r, d) {
@@ -525,6 +588,9 @@ fn judge_cell(cell: &Cell, dec: &[Vec<u8>]) -> (Report, Stats) {
         let mut last_won: Option<usize> = None;
         let mut last_won_decisive: Option<usize> = None;
         for r in 0..cell.rows.len() {
+            if dec[r][d] == SKIPPED {
+                continue;
+            }
             if is_won(dec[r][d]) {
                 last_won = Some(r);
                 if !too_close(r, d) {
@@ -559,7 +625,7 @@ struct PubCase {
     msg: Vec<u8>,
 }
 
-fn public_case(pc: &PubCase, ln2c: &Iv) -> Report {
+fn public_case(pc: &PubCase, ln2c: &Iv, g: &Guard) -> Report {
     let mut rep = Report::new("exploration", "");
     let desc = json!({"kind": "public", "stakes": pc.stakes.iter().map(|s| s.to_string()).collect::<Vec<_>>(),
         "phi_f": pc.phi, "phi_f_bits": format!("{:#018x}", pc.phi.to_bits()), "m": pc.m, "msg_hex": hex::encode(&pc.msg)});
@@ -597,6 +663,32 @@ fn public_case(pc: &PubCase, ln2c: &Iv) -> Report {
             rep.machinery_error(format!("the phi_f=1 twin of a signer produced no signature: {desc}"));
             continue;
         };
+        // The included is_lottery_won decides every index first, under the slow-decision guard: the
+        // signer and the verifier repeat the same decisions inside calls that cannot be interrupted.
+        let sigma = sig_all.get_concatenation_signature_sigma().to_bytes();
+        if g.over_budget() {
+            rep.add_extra("public_parties_skipped_by_wall_budget", 1);
+            rep.exhaustive = false;
+            continue;
+        }
+        let mut incl_dec: Vec<bool> = vec![];
+        let mut slow = 0usize;
+        for index in 0..pc.m {
+            let ev = mc_ref::dense_mapping(&msgp, index, &sigma);
+            let t0 = thread_cpu_s();
+            incl_dec.push(call(pc.phi, ev, stake, total) == WON);
+            if thread_cpu_s() - t0 > g.slow_call_s {
+                slow += 1;
+                if slow >= g.handful {
+                    break;
+                }
+            }
+        }
+        if slow >= g.handful {
+            rep.add_extra("public_parties_skipped_because_decisions_were_slow", 1);
+            rep.exhaustive = false;
+            continue;
+        }
         let signed: Vec<u64> = match catch(|| signer.create_single_signature(&pc.msg)) {
             Ok(Ok(s)) => {
                 if s.get_concatenation_signature_sigma().to_bytes() != sig_all.get_concatenation_signature_sigma().to_bytes() {
@@ -610,7 +702,6 @@ fn public_case(pc: &PubCase, ln2c: &Iv) -> Report {
                 vec![]
             }
         };
-        let sigma = sig_all.get_concatenation_signature_sigma().to_bytes();
         let pk = signer.get_bls_verification_key();
         let p = lot::probability(stake, total, pc.phi, ln2c);
         let x_lo = exponent_lower(stake, total, pc.phi, ln2c);
@@ -640,7 +731,7 @@ fn public_case(pc: &PubCase, ln2c: &Iv) -> Report {
             // the draw, recomputed independently
             let ev = mc_ref::dense_mapping(&msgp, index, &sigma);
             c["draw_hex_le"] = json!(hex::encode(ev));
-            let incl = call(pc.phi, ev, stake, total) == WON;
+            let incl = incl_dec[index as usize];
             if incl != s_won {
                 rep.violation(
                     K_PUBLIC_DRAW,
@@ -786,6 +877,11 @@ pub fn run(ctx: &Ctx) -> ! {
     );
     rep.assume("a panic of is_lottery_won counts as 'lost' (counted in panics_observed)");
     let ln2c = lot::ln2();
+    let guard = Guard::new(ctx);
+    rep.extra(
+        "guards",
+        json!({"wall_budget_s": guard.budget_s, "slow_decision_cpu_s": guard.slow_call_s, "row_cut_after_slow_decisions": guard.handful}),
+    );
 
     // ---- replay of one case
     if let Some(path) = &ctx.replay {
@@ -797,7 +893,7 @@ pub fn run(ctx: &Ctx) -> ! {
                 m: v["m"].as_u64().unwrap_or(24),
                 msg: hex::decode(v["msg_hex"].as_str().unwrap_or("")).unwrap_or_default(),
             };
-            rep.merge(public_case(&pc, &ln2c));
+            rep.merge(public_case(&pc, &ln2c, &guard));
         } else {
             let phi = phi_from(&v);
             let total = parse_u64(&v["total"]).unwrap_or(1);
@@ -816,7 +912,8 @@ pub fn run(ctx: &Ctx) -> ! {
                 }
             }
             let cell = build_cell(phi, total, &stakes, &extra, &b, &ln2c);
-            let dec: Vec<Vec<u8>> = par_map(&(0..cell.rows.len()).collect::<Vec<_>>(), ctx.threads(), |_, r| run_row(&cell, *r));
+            let dec: Vec<Vec<u8>> =
+                par_map(&(0..cell.rows.len()).collect::<Vec<_>>(), ctx.threads(), |_, r| run_row(&cell, *r, &guard).0);
             rep.merge(judge_cell(&cell, &dec).0);
         }
         rep.nontrivial(&0u8);
@@ -826,6 +923,10 @@ pub fn run(ctx: &Ctx) -> ! {
         }
         rep.finish(ctx);
     }
+
+    // ---- public path: executed first (it is cheap), merged into the report after the sweep
+    let pcs = public_cases(ctx);
+    let pub_parts = par_map(&pcs, ctx.threads(), |_, pc| public_case(pc, &ln2c, &guard));
 
     // ---- phase 1: reference thresholds and draw sets, one cell per (phi_f, total)
     let mut keys = vec![];
@@ -840,37 +941,69 @@ pub fn run(ctx: &Ctx) -> ! {
     }
     let cells: Vec<Cell> =
         par_map(&keys, ctx.threads(), |_, (phi, total)| build_cell(*phi, *total, &stakes_for(*total, b.dense_max), &[], &b, &ln2c));
-    // ---- phase 2: the real code, one work item per (cell, stake); most expensive first
+    // ---- phase 2: the real code, one work item per (cell, stake)
+    let bounds_dense_max = b.dense_max;
     let mut items: Vec<(usize, usize)> = vec![];
     for (ci, c) in cells.iter().enumerate() {
         for r in 0..c.rows.len() {
             items.push((ci, r));
         }
     }
-    // order of execution only (results are stored by index): rows with a large exponent x need the
-    // most Taylor iterations on the biggest rationals, so they go first to keep the tail short;
-    // VERIF_SEED permutes the order instead
+    // Order of execution only (results are stored by index). First the cheap rows that see the most
+    // (the large totals 1000 / 45e15 / 2^64-1 with their few stakes, then the extreme stakes 0, 1,
+    // total-1, total of the dense totals), so that their violations are on record if a budget cuts
+    // the run; the remaining rows by descending exponent x (they need the most Taylor iterations on
+    // the biggest rationals; first keeps the tail short). VERIF_SEED permutes the order instead.
     items.sort_by(|a, b| {
+        let class = |i: &(usize, usize)| {
+            let (c, row) = (&cells[i.0], &cells[i.0].rows[i.1]);
+            if c.total > bounds_dense_max {
+                0u8
+            } else if row.stake <= 1 || row.stake + 1 >= c.total {
+                1
+            } else {
+                2
+            }
+        };
         let x = |i: &(usize, usize)| {
             let v = cells[i.0].rows[i.1].x_lo;
             if v.is_finite() { v } else { -1.0 }
         };
-        x(b).partial_cmp(&x(a)).unwrap_or(std::cmp::Ordering::Equal).then(a.cmp(b))
+        class(a).cmp(&class(b)).then(x(b).partial_cmp(&x(a)).unwrap_or(std::cmp::Ordering::Equal)).then(a.cmp(b))
     });
     if ctx.seed != 0 {
         items.sort_by_key(|(c, r)| mc_core::mix(ctx.seed, (*c as u64) << 16 | *r as u64));
     }
     let timing = std::env::var_os("VERIF_C08_TIMING").is_some(); // stderr diagnostics only
-    let rows: Vec<(Vec<u8>, f64)> = par_map(&items, ctx.threads(), |_, (ci, r)| {
+    let rows: Vec<((Vec<u8>, Cut), f64)> = par_map(&items, ctx.threads(), |_, (ci, r)| {
         let t = std::time::Instant::now();
-        let v = run_row(&cells[*ci], *r);
+        let v = run_row(&cells[*ci], *r, &guard);
         (v, if timing { t.elapsed().as_secs_f64() } else { 0.0 })
     });
     let mut dec: Vec<Vec<Vec<u8>>> = cells.iter().map(|c| vec![vec![]; c.rows.len()]).collect();
     let mut cpu_by_phi: std::collections::BTreeMap<String, f64> = Default::default();
-    for ((ci, r), (row, secs)) in items.iter().zip(rows) {
+    let (mut cut_slow, mut cut_budget) = (0u64, 0u64);
+    let mut cut_examples: Vec<Value> = vec![];
+    for ((ci, r), ((row, cut), secs)) in items.iter().zip(rows) {
         dec[*ci][*r] = row;
         *cpu_by_phi.entry(format!("{:e}", cells[*ci].phi)).or_default() += secs;
+        match cut {
+            Cut::No => {}
+            Cut::Slow => {
+                cut_slow += 1;
+                if cut_examples.len() < 4 {
+                    let c = &cells[*ci];
+                    cut_examples.push(json!({"phi_f": c.phi, "total": c.total.to_string(), "stake": c.rows[*r].stake.to_string()}));
+                }
+            }
+            Cut::Budget => cut_budget += 1,
+        }
+    }
+    rep.extra("rows_cut_short_because_decisions_were_slow", json!(cut_slow));
+    rep.extra("rows_skipped_or_cut_by_wall_budget", json!(cut_budget));
+    if cut_slow + cut_budget > 0 {
+        rep.exhaustive = false;
+        rep.extra("rows_cut_short_examples", json!(cut_examples));
     }
     if timing {
         eprintln!("[C08] cpu seconds in is_lottery_won by phi_f: {cpu_by_phi:?}");
@@ -924,13 +1057,23 @@ pub fn run(ctx: &Ctx) -> ! {
     rep.extra("largest_common_draw_set", json!(cells.iter().map(|c| c.draws.len()).max().unwrap_or(0)));
 
     // ---- public path
-    let pcs = public_cases(ctx);
-    let parts = par_map(&pcs, ctx.threads(), |_, pc| public_case(pc, &ln2c));
     let before = rep.evaluations;
-    for p in parts {
+    for p in pub_parts {
         rep.merge(p);
     }
     rep.extra("public_path_index_decisions", json!(rep.evaluations - before));
     rep.extra("public_path_configurations", json!(pcs.len()));
+    // A run that was cut short may only end with a verdict when it found something beyond the two
+    // findings the unchanged tree is known to show; otherwise it proves nothing: no verdict (exit 2).
+    if !rep.exhaustive {
+        let other = rep.violation_counts.iter().any(|(k, n)| *n > 0 && k != K_TAYLOR && k != K_NEAR_ONE);
+        if !other {
+            rep.machinery_error(format!(
+                "the sweep was cut short (rows cut for slow decisions: {cut_slow}, rows cut/skipped by the {} s wall budget: {cut_budget}, \
+                 public-path parties skipped: see evidence) and no violation other than the baseline findings was found: no verdict",
+                guard.budget_s
+            ));
+        }
+    }
     rep.finish(ctx)
 }
